@@ -117,6 +117,16 @@ def _history(kind, ops, ival):
                 intended[name] = [str(x) for x in other]
                 assigned.add(name)
                 mark(name)
+            elif op == 10:
+                # another controller changed the option: Tor announces it (CONF_CHANGED).  That is not a change of ours: nothing
+                # becomes pending because of it (tried while the option has no pending change of its own)
+                assume(listy and name not in pending)
+                newl = ['%s%d' % ({'comma': 'o', 'lines': 'warn file /o', 'ports': '95'}[kind], counter)] if kind != 'ports' else ['95%02d' % counter]
+                tor.options[name]['values'] = list(newl)
+                tor.say(*tor.conf_changed_lines([(name, newl)]))
+                intended[name] = list(newl)
+                if (name in getattr(cfg, 'unsaved', {})) and name not in pending:
+                    return R('event-from-tor-made-an-option-pending', '%s', name)
             elif op == 6:
                 cfg.Nickname = 'nick%d' % counter
                 intended['Nickname'] = ['nick%d' % counter]
@@ -190,7 +200,7 @@ def _history(kind, ops, ival):
                             return R('rejected-save-did-not-fail')
                         if not cfg.needs_save():
                             return R('changes-lost-after-rejected-save')
-            if op <= 6 or op == 9:
+            if op <= 6 or op in (9, 10):
                 if len(tor.pending()) != wire_before:
                     return R('edit-wrote-to-tor-before-save', 'op %d: %r', op, tor.pending())
         # whatever is still pending must be carried by a final accepted save
@@ -212,7 +222,7 @@ def _history(kind, ops, ival):
 def _parts():
     out = []
     for ki, kind in enumerate(_KINDS):
-        firsts = (0, 1, 2, 3, 4, 5, 6, 9) if kind in ('comma', 'lines', 'ports') else (0, 6)
+        firsts = (0, 1, 2, 3, 4, 5, 6, 9, 10) if kind in ('comma', 'lines', 'ports') else (0, 6)
         for o1 in firsts:
             out.append({'ki': ki, 'o1': o1})
     return out
@@ -220,18 +230,18 @@ def _parts():
 
 @cond(quick=dict(parts=_parts(), budget=120))
 def c10_history4(ki: int, o1: int, o2: int, o3: int, o4: int, ival: int) -> str:
-    """4 operations on the option of kind ki (and Nickname): 0 assign, 1..5 in-place list ops, 6 assign Nickname, 7 accepted save, 8 rejected save, 9 assign the list object of another option"""
+    """4 operations on the option of kind ki (and Nickname): 0 assign, 1..5 in-place list ops, 6 assign Nickname, 7 accepted save, 8 rejected save, 9 assign the list object of another option, 10 Tor announces a change made by someone else"""
     kind = _KINDS[ki]
     if kind != 'int':
         assume(ival == 0)
     else:
         ival = api.pick_from(ival, (-1, 0, 1, 65535, 100000))
-    allowed = tuple(range(10)) if kind in ('comma', 'lines', 'ports') else (0, 6, 7, 8)
+    allowed = tuple(range(11)) if kind in ('comma', 'lines', 'ports') else (0, 6, 7, 8)
     ops = [o1] + [api.pick_from(o, allowed) for o in (o2, o3, o4)]
     return _history(kind, ops, ival)
 
 
-@cond(thorough=dict(parts=[dict(p, o2=b) for p in _parts() for b in range(10)], budget=300))
+@cond(thorough=dict(parts=[dict(p, o2=b) for p in _parts() for b in range(11)], budget=300))
 def c10_history5(ki: int, o1: int, o2: int, o3: int, o4: int, o5: int, ival: int) -> str:
     """5 operations"""
     kind = _KINDS[ki]
@@ -239,7 +249,7 @@ def c10_history5(ki: int, o1: int, o2: int, o3: int, o4: int, o5: int, ival: int
         assume(ival == 0)
     else:
         ival = api.pick_from(ival, (-1, 0, 1, 65535, 100000))
-    allowed = tuple(range(10)) if kind in ('comma', 'lines', 'ports') else (0, 6, 7, 8)
+    allowed = tuple(range(11)) if kind in ('comma', 'lines', 'ports') else (0, 6, 7, 8)
     assume(o2 in allowed)
     ops = [o1, o2] + [api.pick_from(o, allowed) for o in (o3, o4, o5)]
     return _history(kind, ops, ival)
